@@ -156,7 +156,11 @@ macro_rules
         | exact ($h).inlineQ | exact ($h).locIngr | exact ($h).locCw | exact ($h).metaMap | exact ($h).frontMatter
         | exact ($h).metaLocs | exact ($h).servings | exact ($h).defineMode | exact ($h).duplicateMode
         | exact ($h).oldStyle | exact ($h).oldStyleUsed | exact ($h).diags | exact ($h).stepCounter
-        | exact ($h).block | rfl | skip)))
+        | exact ($h).block | rfl
+        | (simp only [($h).sections, ($h).cur, ($h).ingredients, ($h).cookware, ($h).timers, ($h).inlineQ,
+            ($h).metaMap, ($h).servings, ($h).defineMode, ($h).duplicateMode, ($h).oldStyle, ($h).stepCounter,
+            ($h).block]; done)
+        | skip)))
 
 theorem ARel.aerr (kind : String) {l' l : List Span} (h : l'.length = l.length) :
     ARel (α := α) uws (fun _ _ => True) (aerr kind l') (aerr kind l) :=
@@ -194,6 +198,18 @@ macro_rules | `(tactic| arel_leaf) => `(tactic| assumption)
 macro "arel" : tactic => `(tactic|
   repeat (first
     | arel_leaf
+    | apply ARel.ite
+    | apply ARel.panicIfK
+    | apply ARel.bind
+    | (intro _ _ h; subst h)
+    | intro _ _ _
+    | dsimp only))
+
+/-- `arel` that also closes `modify` leaves whose changed fields are equal after rewriting -/
+macro "arelm" : tactic => `(tactic|
+  repeat (first
+    | arel_leaf
+    | (apply ARel.modify; intro c' c hc; colsim hc; done)
     | apply ARel.ite
     | apply ARel.panicIfK
     | apply ARel.bind
@@ -364,8 +380,6 @@ theorem ingrSetReferencedFrom_arel (refTo newIndex : Nat) (defn : Ingredient (Sc
     apply ARel.modify
     intro c' c hc
     colsim hc
-    show c'.ingredients.setIfInBounds _ _ = c.ingredients.setIfInBounds _ _
-    rw [hc.ingredients]
 
 theorem ingrRegular_arel (env : Env) (input' input : Str) {li' li : Loc (PIngredient α)}
     (h : PIngredientSim env.cs.uws li'.val li.val) (igr0 : Ingredient (ScalableValue α)) :
@@ -412,10 +426,8 @@ theorem ingrBuild_arel (env : Env) (input' input : Str) {li' li : Loc (PIngredie
   · apply ARel.modify
     intro c' c hc
     colsim hc
-    · show c'.ingredients.push _ = c.ingredients.push _
-      rw [hc.ingredients]
-    · show (c'.locIngr.push _).size = (c.locIngr.push _).size
-      simp [hc.locIngr]
+    show (c'.locIngr.push _).size = (c.locIngr.push _).size
+    simp [hc.locIngr]
   intro _ _ _
   apply ARel.bind ARel.get
   intro t' t ht
